@@ -10,6 +10,7 @@ import (
 	"strconv"
 	"strings"
 	"sync"
+	"syscall"
 	"time"
 
 	"github.com/mimecast/dtail/verifharness/internal/vlib"
@@ -42,6 +43,9 @@ func c07ParseLine(l string) (c07Rec, string, string) {
 	var rec c07Rec
 	if strings.HasPrefix(l, "CLIENT|") || strings.HasPrefix(l, "SERVER|") {
 		return rec, "other", ""
+	}
+	if strings.HasPrefix(l, " Hint: Hit Ctrl+C again to exit") || strings.HasPrefix(l, " Connection stats: ") {
+		return rec, "other", "" // the client's own lines after an interrupt signal
 	}
 	if !strings.HasPrefix(l, "REMOTE|") {
 		return rec, "", "line is neither a REMOTE, SERVER nor CLIENT record"
@@ -328,7 +332,16 @@ func c07TailRun(r *vlib.Run, i int, fl *fleet, rng *rand.Rand) {
 	if glob {
 		filesArg = filepath.Join(sub, "*.log")
 	}
-	full := append(fl.ClientArgs(), "--logger", "stdout", "--logLevel", "error", "--noColor", "--shutdownAfter", "7", "--files", filesArg)
+	// half of the follows are interrupted once (Ctrl+C): the client prints its
+	// connection stats, holds its output back for 3 s and resumes while the
+	// sources are still delivering
+	interrupt := rng.Intn(2) == 0
+	shutdown := "7"
+	rounds := 8
+	if interrupt {
+		shutdown, rounds = "10", 26
+	}
+	full := append(fl.ClientArgs(), "--logger", "stdout", "--logLevel", "error", "--noColor", "--shutdownAfter", shutdown, "--files", filesArg)
 	stop := make(chan struct{})
 	var wg sync.WaitGroup
 	burst := 150 + rng.Intn(400)
@@ -340,7 +353,7 @@ func c07TailRun(r *vlib.Run, i int, fl *fleet, rng *rand.Rand) {
 				seq := 1 // "old content" is line 1 of the file
 				time.Sleep(1500 * time.Millisecond)
 				name := fmt.Sprintf("t%d.log", f)
-				for round := 0; round < 8; round++ {
+				for round := 0; round < rounds; round++ {
 					var b bytes.Buffer
 					for k := 0; k < burst; k++ {
 						seq++
@@ -358,7 +371,24 @@ func c07TailRun(r *vlib.Run, i int, fl *fleet, rng *rand.Rand) {
 		}
 	}
 	p := pacing{Kind: "slow", Chunk: 2048, DelayMs: 2}
-	res, out := runPaced(vlib.Cmd{Path: r.Bin("dtail"), Args: full, Env: fl.ClientEnv(), Dir: fl.Home, Watchdog: 120 * time.Second}, p, 4096)
+	cmd := vlib.Cmd{Path: r.Bin("dtail"), Args: full, Env: fl.ClientEnv(), Dir: fl.Home, Watchdog: 120 * time.Second}
+	if interrupt {
+		p = pacing{Kind: "fast"}
+	}
+	var pidMu sync.Mutex
+	childPid := 0
+	if interrupt {
+		go func() {
+			time.Sleep(3200 * time.Millisecond)
+			pidMu.Lock()
+			pid := childPid
+			pidMu.Unlock()
+			if pid > 0 {
+				syscall.Kill(pid, syscall.SIGINT)
+			}
+		}()
+	}
+	res, out := runPacedPid(cmd, p, 4096, func(pid int) { pidMu.Lock(); childPid = pid; pidMu.Unlock() })
 	close(stop)
 	wg.Wait()
 	if res.TimedOut {
@@ -379,7 +409,17 @@ func c07TailRun(r *vlib.Run, i int, fl *fleet, rng *rand.Rand) {
 	r.Eval(key)
 	r.Count("tail_lines_checked", ck.remote)
 	r.Count("source_switches_observed", ck.switches)
-	expected := len(fl.Servers) * nFiles * 8 * burst
+	expected := len(fl.Servers) * nFiles * rounds * burst
+	if interrupt {
+		r.Count("tail_runs_interrupted", 1)
+		if bytes.Contains(out, []byte(" Hint: Hit Ctrl+C again")) {
+			r.Count("tail_runs_interrupt_seen_in_output", 1)
+			// lines delivered after the client resumed its output?
+			if k := bytes.Index(out, []byte(" Connection stats: ")); k >= 0 && bytes.Count(out[k:], []byte("\nREMOTE|")) > 10 {
+				r.Count("tail_runs_resumed_while_sources_deliver", 1)
+			}
+		}
+	}
 	if ck.remote < expected {
 		r.Count("tail_runs_with_dropped_lines", 1)
 	}
